@@ -98,6 +98,9 @@ func c17(r *Report) propMeta {
 	ig := "x/tunnel/keeper.InitGenesis"
 	r.LoopAlwaysCalls("genesis-active-flag-always-indexed", ig, "Keeper.SetActiveTunnelID", Cond{Op: "BOOL", A: []string{"field:Tunnel.IsActive"}, Want: true, Desc: "the tunnel is not flagged active"})
 
+	// genesis import agreements of C08
+	r.Include("C08", "C08.R5")
+
 	return propMeta{
 		Decided: []string{
 			"R1 every tunnel msgServer method whose request carries Creator+TunnelID (5 today, new ones checked automatically) gates every keeper write by msg.Creator == GetTunnel(msg.TunnelID).Creator",
